@@ -78,7 +78,22 @@ def run_harness(driver, scenarios, name, timeout=1200, env_extra=None, args=None
                 groups[sid] = []
                 order.append(sid)
             groups[sid].append(e)
+    # scenarios the driver did not run because three earlier ones had hung (those three are findings)
+    global NOT_RUN
+    NOT_RUN = set(sid for sid, evs in groups.items() if any(e.get("ev") == "Note" and e.get("what") == "not-run" for e in evs))
+    for sid in NOT_RUN:
+        groups.pop(sid)
+        order.remove(sid)
+    if NOT_RUN:
+        hung = sum(1 for evs in groups.values() for e in evs if e.get("ev") == "ChildExit" and e.get("signal") == 14)
+        if hung < 3:
+            raise ToolError("driver %s skipped scenarios without three hung ones" % driver)
+        HUNG_RUNS.append((driver, name, hung, len(NOT_RUN)))
     return groups, order, p.stdout
+
+
+NOT_RUN = set()
+HUNG_RUNS = []
 
 
 # ---------------------------------------------------------------- findings
@@ -169,6 +184,11 @@ class Run:
         self.violations.append((key, path))
 
     def finish(self):
+        if HUNG_RUNS and not self.violations and not self.known_hits:
+            # cannot happen if every trace specification rejects a hung scenario; never report "held" then
+            raise ToolError("scenarios hung (%s) but no violation was derived" % (HUNG_RUNS,))
+        if HUNG_RUNS:
+            self.extra["hung_runs"] = [{"driver": d, "run": n, "hung": h, "not_run": k} for d, n, h, k in HUNG_RUNS]
         wall = time.time() - self.t0
         cov = {
             "states": max(self.states, 1) if self.level == "model_checking" else self.states,
